@@ -13,6 +13,7 @@ EXTENDS Geom2, AlgPolygon, Json, TLC
 CONSTANTS G,        \* lattice is 0..G x 0..G
           MaxV,     \* maximal number of vertices
           Relabel,  \* TRUE: Reverse/Shift are actions (all 2n relabellings are states)
+          WithBalls, \* TRUE: records carry the exact ball data of C13
           EmitOn    \* TRUE: print records
 
 VARIABLES poly,     \* sequence of points: the vertex cycle as handed to the constructor
@@ -98,6 +99,24 @@ Record ==
       q2     |-> QSeq,                            \* query points, doubled frame
       mem    |-> [k \in 1..Len(QSeq) |-> DMember(QSeq[k], P)] ]
 
-Emit == EmitOn => PrintT(ToJson(Record))
+(* ---- balls (C13) ---------------------------------------------------------------------------- *)
+\* four points are concyclic iff the lifted determinant vanishes; a circumcircle exists iff all vertices are concyclic
+Lift2(p, o) == LET d == Sub2(p, o) IN <<d[1], d[2], Dot2(d, d)>>
+Det3r(a, b, c) == a[1] * (b[2] * c[3] - b[3] * c[2]) - a[2] * (b[1] * c[3] - b[3] * c[1]) + a[3] * (b[1] * c[2] - b[2] * c[1])
+Cyclic == LET o == poly[1]  a == poly[2]
+              b == CHOOSE p \in Rng(poly) : Orient2(o, a, p) # 0
+          IN \A p \in Rng(poly) : Det3r(Lift2(a, o), Lift2(b, o), Lift2(p, o)) = 0
+\* centred balls about the exact centroid c = cnum / D, D = 3 * area2 (all in integers scaled by D):
+\*   minimal centred bounding circle: r^2 = max_v |D v - cnum|^2 / D^2
+\*   maximal centred bounded circle (convex polygons): r = min over edges of |cross(D a - cnum, b - a)| / (D |b - a|)
+BallRecord ==
+    LET D == 3 * DArea2(tris)  c == DCnum(tris)  n == Len(poly)
+        sc(v) == <<D * v[1] - c[1], D * v[2] - c[2]>>
+        far == CHOOSE v \in Rng(poly) : \A u \in Rng(poly) : Dot2(sc(v), sc(v)) >= Dot2(sc(u), sc(u))
+    IN [den |-> D, far2 |-> Dot2(sc(far), sc(far)), cyclic |-> Cyclic,
+        inner |-> [min |-> {[div |-> << [q |-> << Abs(sc(poly[i])[1] * (poly[Nxt(i, n)][2] - poly[i][2]) - sc(poly[i])[2] * (poly[Nxt(i, n)][1] - poly[i][1])), D >>],
+                                        [sqrt |-> [q |-> <<Dist2sq(poly[i], poly[Nxt(i, n)]), 1>>]] >>] : i \in 1..n}]]
+
+Emit == EmitOn => PrintT(ToJson(IF WithBalls THEN [Record EXCEPT !.k = "polygon"] @@ [balls |-> BallRecord] ELSE Record))
 ViewPoly == poly      \* emission runs identify states that differ only in the triangulation
 =============================================================================
